@@ -125,6 +125,56 @@ theorem checksum_value (d : Digest) (s : List Char) (c : Checksum) (h : parseChe
           subst h1
           simp [g3]
 
+/-- **M3b′ (acceptance does not depend on the entry path: a checksum inside an artifact record).** `impl Deserialize for
+Checksum<D>` is `String::deserialize` followed by `from_str`, so a checksum that arrives as the `checksum` string of an
+artifact record (an inventory document, any serde format) is judged exactly like the same string handed to
+`Checksum::from_str`: whenever the record decodes, the artifact holds `from_str`'s result for the record's string. -/
+theorem record_checksum_is_from_str {V M EV EM : Type} (cv : Codec V EV) (cm : Codec M EM) (d : Digest) (r : Rec EV EM)
+    (a : Artifact V M) (h : decodeArtifact cv cm d r = some a) : parseChecksum d r.checksum = .ok a.checksum := by
+  unfold decodeArtifact at h
+  split at h
+  · rename_i hc _
+    simp only [Option.some.injEq] at h
+    subst h
+    exact hc
+  · simp at h
+
+/-- … and a record whose other fields decode is accepted **exactly when** its checksum string is `<algorithm>:<hex>` of the
+expected digest — the same grammar as on the `FromStr` path (`checksum_accepted_iff_grammar`), nothing trimmed or added on the way. -/
+theorem record_accepted_iff_checksum_grammar {V M EV EM : Type} (cv : Codec V EV) (cm : Codec M EM) (d : Digest) (r : Rec EV EM)
+    (hv : ∃ v, cv.dec r.version = some v) (hos : ∃ o, Os.parse r.os = some o) (harch : ∃ x, Arch.parse r.arch = some x)
+    (hm : ∃ m, cm.dec r.metadata = some m) :
+    (∃ a : Artifact V M, decodeArtifact cv cm d r = some a) ↔ ChecksumGrammar d r.checksum := by
+  rw [← checksum_accepted_iff_grammar]
+  obtain ⟨v, hv⟩ := hv
+  obtain ⟨o, hos⟩ := hos
+  obtain ⟨x, harch⟩ := harch
+  obtain ⟨m, hm⟩ := hm
+  constructor
+  · rintro ⟨a, ha⟩
+    exact ⟨a.checksum, record_checksum_is_from_str cv cm d r a ha⟩
+  · rintro ⟨c, hc⟩
+    exact ⟨⟨v, o, x, r.url, c, m⟩, by simp [decodeArtifact, hv, hos, harch, hm, hc]⟩
+
+/-- an inventory document is accepted only if every artifact's checksum string is in the grammar -/
+theorem inventory_accepts_only_grammar_checksums {V M EV EM : Type} (cv : Codec V EV) (cm : Codec M EM) (d : Digest)
+    (recs : List (Rec EV EM)) (inv : List (Artifact V M)) (h : decodeInventory cv cm d recs = some inv) :
+    ∀ r ∈ recs, ChecksumGrammar d r.checksum := by
+  induction recs generalizing inv with
+  | nil => simp
+  | cons r rest ih =>
+    simp only [decodeInventory] at h
+    cases ha : decodeArtifact (V := V) (M := M) cv cm d r with
+    | none => simp [ha] at h
+    | some a =>
+      cases hr : decodeInventory (V := V) (M := M) cv cm d rest with
+      | none => simp [ha, hr] at h
+      | some as =>
+        intro r' hr'
+        rcases List.mem_cons.mp hr' with rfl | hmem
+        · exact (checksum_accepted_iff_grammar d r'.checksum).mp ⟨a.checksum, record_checksum_is_from_str cv cm d r' a ha⟩
+        · exact ih as hr r' hmem
+
 /-- the decision procedure the driver judges the implementation with is the grammar -/
 theorem spec_oracle_is_grammar (d : Digest) (s : List Char) : accepts d s = true ↔ ChecksumGrammar d s :=
   accepts_iff_grammar d s
@@ -202,5 +252,13 @@ example : parseChecksum d2 "d2:0aFf".toList = .ok ⟨"d2".toList, [10, 255]⟩ :
 example : parseChecksum d2 "d2:0aF".toList = .error .invalidValue := by rfl
 example : parseChecksum d2 "d2:0aFf00".toList = .error .invalidLength := by rfl
 example : ChecksumGrammar d2 "d2:0aFf".toList := (spec_oracle_is_grammar _ _).mp (by decide)
+
+def idCodec : Codec Nat Nat := ⟨id, some⟩
+/-- the record path on concrete strings: the well-formed checksum is accepted with `from_str`'s value, the same string followed
+by a line break is rejected (as `from_str` rejects it) -/
+example : (decodeArtifact idCodec idCodec d2 ⟨1, "linux".toList, "amd64".toList, ['u'], "d2:0aFf".toList, 0⟩).map (·.checksum)
+    = some ⟨"d2".toList, [10, 255]⟩ := by rfl
+example : decodeArtifact idCodec idCodec d2 ⟨1, "linux".toList, "amd64".toList, ['u'], "d2:0aFf\n".toList, 0⟩ = none := by rfl
+example : parseChecksum d2 "d2:0aFf\n".toList = .error .invalidValue := by rfl
 
 end CnbVerif.C18
